@@ -1,0 +1,26 @@
+//go:build verif
+
+// Machine-checked contracts for package labelmap (comment-only; read by /verif/cmd/govc).
+
+package labelmap
+
+// ---- version isolation of the in-memory label mapping (C03, C08) ----
+// vmap.value resolves a supervoxel's body at version v through vc.mappedVersions[v], the table of the
+// versions that may contribute: it must hold v and its ancestors and nothing else, otherwise an
+// ancestor or sibling sees mappings made in a descendant.
+
+//@ func getDistFromRoot
+//@   prop C08 C03
+//@   modifies nothing
+//@   invariant loop 1: distMap != nil && fresh(distMap)
+//@   invariant loop 1: forall u dvid.VersionID :: has(distMap, u) <==> (exists k int :: 0 <= k && k <= rangeindex && ancestry[k] == u)
+//@   ensures result != nil && fresh(result)
+//@   ensures forall u dvid.VersionID :: has(result, u) <==> (exists k int :: 0 <= k && k < len(ancestry) && ancestry[k] == u)
+
+//@ func VCache.initToVersion
+//@   prop C08 C03
+//@   requires vc != nil && vc.mappedVersions != nil
+//@   safety_off
+//@   modifies *
+//@   assert at "if loadMutations {": forall u dvid.VersionID :: has(vc.mappedVersions[ancestor], u) ==> (exists k int :: 0 <= k && k < len(ancestors[pos:]) && ancestors[pos:][k] == u)
+//@   assert at "if loadMutations {": has(vc.mappedVersions[ancestor], ancestor)
